@@ -45,6 +45,13 @@ def placements():
     out.append(("mod-struct-using-mod-enum", lambda t: {"main": [("mod", "m1"), ("struct", "R", (("pre", 0, U(8), None, None), ("r", 1, _rename(t, "Y"), None, None)))], "m1": [ENUM_X, ("struct", "Y", (("e", 0, ("ref", "X"), None, None), ("es", 1, Arr(("ref", "X"), 2), None, None)))]}, True, "Struct"))
     out.append(("mod-enum-and-struct", lambda t: {"main": [("mod", "m1"), R(t)], "m1": [("struct", "Z", (("k", 0, U(1), None, None),)), ENUM_X]}, True, "Enum"))
     out.append(("dup-kind-across-import", lambda t: {"main": [ENUM_X, ("mod", "m1"), ("struct", "R", (("pre", 0, U(8), None, None), ("r", 1, ("ref", "Y"), None, None)))], "m1": [STRUCT_X, ("struct", "Y", (("pre", 0, U(8), None, None), ("w", 1, _rename(t, "X"), None, None)))]}, "dup", "Struct"))
+    # one module reached along two import paths (the only way two modules can share a type): X must be declared ONCE
+    Y = lambda t: ("struct", "Y", (("pre", 0, U(8), None, None), ("w", 1, _rename(t, "X"), None, None)))
+    out.append(("diamond-main-first", lambda t: {"main": [("mod", "common"), ("mod", "m1"), R(t)], "common": [ENUM_X], "m1": [("mod", "common"), Y(t)]}, True, "Enum"))
+    out.append(("diamond-module-first", lambda t: {"main": [("mod", "m1"), ("mod", "common"), R(t)], "common": [STRUCT_X], "m1": [("mod", "common"), Y(t)]}, True, "Struct"))
+    out.append(("diamond-two-modules", lambda t: {"main": [("mod", "m1"), ("mod", "m2"), R(t)], "common": [STRUCT_X], "m1": [("mod", "common"), Y(t)], "m2": [("mod", "common"), ("struct", "Z", (("w", 0, _rename(t, "X"), None, None),))]}, True, "Struct"))
+    out.append(("same-mod-twice", lambda t: {"main": [("mod", "common"), ("mod", "common"), R(t)], "common": [ENUM_X]}, True, "Enum"))
+    out.append(("diamond-through-cached-module", lambda t: {"main": [("mod", "common"), ("mod", "m1"), ("mod", "m2"), ("struct", "R", (("pre", 0, U(8), None, None), ("r", 1, _rename(t, "Z"), None, None)))], "common": [ENUM_X], "m1": [("mod", "common"), Y(t)], "m2": [("mod", "m1"), ("struct", "Z", (("y", 0, ("ref", "Y"), None, None), ("w", 1, _rename(t, "X"), None, None)))]}, True, "Struct"))
     out.append(("inside-mod-undeclared", lambda t: {"main": [("mod", "m1")], "m1": [R(t)]}, False, None))
     out.append(("inside-mod-uses-main-decl", lambda t: {"main": [STRUCT_X, ("mod", "m1")], "m1": [R(t)]}, False, None))
     return out
